@@ -179,6 +179,26 @@ def replay_case(arg):
     for a, b in zip(t_in + o_in, times + obs):
         if not np.array_equal(a, b):
             fail('NoInputWrite', 'data_modified', None)
+    # ---- outside the support (C03, last sentence): plain evaluation and evaluation with sensitivities agree on
+    # finiteness; every error-model parameter in turn (and one mechanistic parameter) is set to zero / a negative number
+    if not fails:
+        for k_ in list(range(nmech, rec['nparams'])) + [int(rng.integers(nmech))]:
+            for bad in (0.0, -0.4):
+                tb = theta.copy()
+                tb[k_] = bad
+                try:
+                    with warnings.catch_warnings():
+                        warnings.simplefilter('ignore')
+                        vb = float(ll(tb.copy()))
+                        sb = float(ll.evaluateS1(tb.copy())[0])
+                except Exception as e:
+                    fail('FiniteAgree', type(e).__name__, dict(slot=rec['names'][k_], value=bad, error=repr(e)))
+                    continue
+                cnt['out_of_support_points'] = cnt.get('out_of_support_points', 0) + 1
+                if not np.isfinite(vb):
+                    cnt['non_finite_points'] = cnt.get('non_finite_points', 0) + 1
+                if np.isfinite(vb) != np.isfinite(sb) or (np.isfinite(vb) and not interp.close(vb, sb)):
+                    fail('FiniteAgree', 'call_vs_S1', dict(slot=rec['names'][k_], value=bad, call=vb, S1=sb, theta=tb.tolist()))
     # ---- posterior = likelihood + prior (C01 observe_at: LogPosterior) --------------------
     if not fails and (int(key, 16) + seed) % 3 == 0:
         try:
